@@ -1,3 +1,5 @@
+//go:build all || c11
+
 package scen
 
 import (
